@@ -7,7 +7,8 @@ import MySensors.Lemmas.GwQuiet
 import MySensors.Lemmas.GwHist
 import MySensors.Lemmas.SpecOta
 
-namespace MySensors
+namespace MySensors.C10
+open MySensors
 
 /-! ### the two relations -/
 
@@ -612,4 +613,4 @@ def sessionsOf (n : Int) (g : GW) : List Op → List Session
   | [] => []
   | op :: ops => absSession (step g op).1.ota n :: sessionsOf n (step g op).1 ops
 
-end MySensors
+end MySensors.C10
